@@ -26,17 +26,28 @@ class InfoQueryCondition(AbstractCondition):
 
 
 class InfoQuery(AbstractQuery):
-    def __init__(self, key, value):
+    def __init__(self, key, value, inverted=False):
         super().__init__(
             InfoQueryCondition(
                 key=key,
                 value=value
             )
         )
+        self._inverted = inverted
+
+    def __invert__(self):
+        return InfoQuery(
+            self._condition.key,
+            self._condition.value,
+            inverted=not self._inverted
+        )
 
     @property
     def fit_query(self) -> str:
-        return f"SELECT fit_id FROM info WHERE {self.condition}"
+        query = f"SELECT fit_id FROM info WHERE {self.condition}"
+        if self._inverted:
+            return f"SELECT id FROM fit WHERE id NOT IN ({query})"
+        return query
 
 
 class InfoField:
